@@ -197,7 +197,12 @@ def check_court(cs_string):
 
 # ---- forms (E2) ----------------------------------------------------------------------------------
 
-PRE = ["", "See ", "In ", "As the court held in ", "The rule is settled. "]
+LONG_PROSE = (
+    "The panel then turned to the remaining arguments raised by the appellant, none of which had been presented to the trial "
+    "judge, and explained at some length why each of them lacked merit under the governing standard, noting that the record "
+    "contained ample support for the findings below and that nothing in the briefs suggested otherwise; it relied on "
+)  # > 300 characters of neutral prose (no stop word, citation, id., supra, section mark or line break)
+PRE = ["", "See ", "In ", "As the court held in ", "The rule is settled. ", LONG_PROSE]
 PLAINTIFF = ["Foo", "Smith Co.", "United States", "O'Brien", "Acme Widget Corp.", "State ex rel. Jones"]
 DEFENDANT = ["Bar", "Jones", "Garcia-Lopez", "City of Springfield", "Baker & Sons, Inc.", "Doe"]
 REP = [("U.S.", "U.S."), ("F.2d", "F.2d"), ("U. S.", "U.S."), ("S. Ct.", "S. Ct."), ("Cal. 4th", "Cal. 4th"), ("N.E.2d", "N.E.2d"), ("Thompson", "Thompson"), ("F. Supp. 2d", "F. Supp. 2d")]
@@ -293,10 +298,10 @@ LPIN = ["5", "5-6", "5, 7", "5, n.3", "*5", "¶ 5", "123:24-25", "pp. 5-6"]
 SPAREN = ["", " (quoting Baz)", " (quoting (x) y)"]
 STERM = [".", ";", ",", "", ")"]
 SSUF = [" Next sentence.", ""]
-SPRE = ["", "See ", "As noted in ", "That is settled. "]
+SPRE = ["", "See ", "As noted in ", "That is settled. ", LONG_PROSE]
 SHORT_SLOTS = [("pre", SPRE), ("ante", ANTE), ("rep", SREP), ("pin", SPIN), ("paren", SPAREN), ("term", STERM), ("suf", SSUF), ("comma", ["", ","])]
 SUPRA_SLOTS = [("pre", SPRE), ("ante", ANTE), ("form", [", supra, at ", " supra at ", ", supra, ", ", 12 supra, at "]), ("pin", LPIN), ("paren", SPAREN), ("term", STERM), ("suf", SSUF)]
-ID_SLOTS = [("pre", ["", "See ", "That is settled. "]), ("idf", ["Id.", "Ibid.", "id.", "Id.,"]), ("form", [" at ", " "]), ("pin", LPIN), ("paren", SPAREN), ("term", STERM), ("suf", SSUF)]
+ID_SLOTS = [("pre", ["", "See ", "That is settled. ", LONG_PROSE]), ("idf", ["Id.", "Ibid.", "id.", "Id.,"]), ("form", [" at ", " "]), ("pin", LPIN), ("paren", SPAREN), ("term", STERM), ("suf", SSUF)]
 PAREN_TXT = {"": None, " (quoting Baz)": "quoting Baz", " (quoting (x) y)": "quoting (x) y"}
 
 
